@@ -1382,7 +1382,10 @@ def run(ctx):
     ctx.modelled(MODELLED)
     ctx.extra["regenerated_from_source"] = REGENERATED
     ctx.extra["oracle_only"] = ORACLE_ONLY
-    stop = gen(ctx)
+    try:
+        stop = gen(ctx)
+    except Exception as e:  # noqa
+        stop = "C11 translator failed (fail-closed): %s: %s" % (type(e).__name__, e)
     if stop:
         ctx.broken.append(stop)
     ctx.build(["Model/C11_etag.vo", "Props/C11.vo"])
@@ -1390,141 +1393,179 @@ def run(ctx):
     n = ctx.scale(450, 6000)
 
     # ---------------------------------------------------------------- correspondence
-    # 1. the scanner: findall + match of both live patterns
-    vals = corr_values(ctx, rng, n)
-    cases = []
-    for which in ("lst", "rsp"):
-        for v, oc in vals:
-            cases.append((cpair(cbool(which == "lst"), cstr(v)), impl_scan(which, v),
-                          {"kind": "scan", "pattern": which, "value": v, "oracle": oc}))
-    _corr(ctx, "scan", "(fun c : bool * str => let g := if fst c then lst_cfg else rsp_cfg in "
-                       "VList [obs_findall g (snd c); obs_match g (snd c)])", cases, "(bool * str)")
-    # 2. request.if_match / request.if_none_match + membership
-    vals = corr_values(ctx, rng, n)
-    cases = []
-    for v, oc in [(None, [])] + vals:
-        probes = [None, "", "a", "b", "*"] + ([t for _, _, t in oc[0]["items"]] if oc else [])
-        if v:
-            probes += [v, v[1:-1], v[:-1]]
-        style = REQ_STYLES[len(cases) % len(REQ_STYLES)]
-        cases.append((cpair(costr(v), clist(costr(p) for p in probes)), impl_getters(v, probes, style),
-                      {"kind": "getters", "value": v, "probes": probes, "style": style,
-                       "oracle": [dict(o, style=style) for o in oc]}))
-    _corr(ctx, "getters", "(fun c : option str * list (option str) => obs_getters (fst c) (snd c))", cases, "(option str * list (option str))")
-    # 3. Response.etag = v / (v, strong)
-    r3 = ctx.sub_rng("corr-etag")
-    args = [("str", v) for v in ["", "a", '"a"', 'W/"a"', 'a"b', "a\\", "a\nb", "a\rb", ' "a"', 'W/"a', "*", '"a', ',"a"',
-                                 '"a" x', '"a\\"', "\xe9", "Ā"]]
-    args += [("pair", v, st) for v in ["", "a", '"a"', 'W/"a"', 'a"b', "a\\", "a\nb", '\\"', "\\\\"] for st in (True, False)]
-    for _ in range(n):
-        v = r_tag(r3, TAG_ALPHA + ['"', "W", "/", "\n", "\r", "\\", "\t", "b"], 5) if r3.random() < 0.7 else r_header_value(r3)
-        args.append(("str", v) if r3.random() < 0.5 else ("pair", v, r3.random() < 0.5))
-    cases = []
-    for a in args:
-        oc = []
-        if '"' not in a[1] and "\n" not in a[1] and "\r" not in a[1]:
-            oc = [{"kind": "etag", "v": a[1], "strong": None if a[0] == "str" else a[2], "how": a[0]}]
-        cfg = RESP_CFGS[len(cases) % len(RESP_CFGS)]
-        cases.append((carg(a), impl_set_etag(a, cfg), {"kind": "set-etag", "arg": list(a), "cfg": cfg,
-                                                        "oracle": [dict(o, cfg=cfg) for o in oc]}))
-    _corr(ctx, "set-etag", "obs_set_etag", cases, "etag_arg")
-    # 4. raw ETag headers (not necessarily written by the setter)
-    hs = [None, ""] + [v for v, _ in corr_values(ctx, r3, n)]
-    cases = [(costr(h), impl_raw_etag(h), {"kind": "raw-etag", "header": h}) for h in hs]
-    _corr(ctx, "raw-etag", "obs_raw_etag", cases, "(option str)")
-    # 5. request.if_range and `resp in request.if_range`
-    r5 = ctx.sub_rng("corr-if-range")
-    cases = []
-    for i in range(n):
-        k = r5.random()
-        oc = []
-        if k < 0.22:
-            value = r_datey(r5)
-        elif k < 0.3:
-            dd = r5.choice([0, 784111777, 1005268127, 2 ** 31, r5.randrange(0, 4 * 10 ** 9)])
-            value = r5.choice([near_date(dd, r5.choice(NEAR_DATES)), near_date(dd, r5.choice(NEAR_DATES)),
-                               fmt_asctime(dd), fmt_asctime(dd), '"' + fmt_asctime(dd) + '"', 'W/"' + fmt_date(dd) + '"',
-                               '"' + fmt_date(dd) + '"', fmt_asctime(dd).replace("  ", " 0"), fmt_asctime(dd) + " ",
-                               fmt_asctime(dd)[4:], "x" + fmt_asctime(dd)])
-            if value == fmt_asctime(dd):
-                oc = [{"kind": "if-range-date", "d": dd, "lms": [None, max(0, dd - 1), dd, dd + 1], "how": "header",
-                       "form": "asctime"}]
-        elif k < 0.6:
-            t, w = r_tag(r5), r5.random() < 0.3
-            value = render_tag(w, t)
-        elif k < 0.65:
-            value = r5.choice([None, "", "*", " GMT", "GMT", '"a" GMT', '"a GMT"', "a GMT"])
-        else:
-            value = r_header_value(r5)
+    def stage(name, fn):
+        """one stage of the check: a failure of the machinery in it is recorded, the other stages still run"""
         try:
-            d = real_parse_date(value) if value and value.endswith(" GMT") else None
-        except Exception:  # noqa -- the getter raises too: checked by the malformed oracle, not a correspondence case
-            continue
-        resps = []
-        tbl = {}
-        if value and value.endswith(" GMT"):
-            tbl[value] = d
-        elif value and not value.startswith(('"', 'W/"')):
-            try:
-                d = tbl[value + " GMT"] = real_parse_date(value + " GMT")     # the asctime branch of IfRange.parse
-            except Exception:  # noqa
-                continue
-        for _ in range(4):
-            e = r5.choice([None, "", render_tag(False, "a"), render_tag(True, "a"), value, "a", r_header_value(r5)])
-            if r5.random() < 0.5 and value and not value.endswith(" GMT") and '"' in value:
-                e = value if r5.random() < 0.6 else value.replace("W/", "")
-            base = d if d is not None and 0 < d < 10 ** 11 else 10 ** 9
-            l = r5.choice([None, None, "", "garbage", fmt_date(max(0, base - 1)), fmt_date(base), fmt_date(base + 1),
-                           fmt_date(r5.randrange(0, 4 * 10 ** 9))])
-            if l:
-                try:
-                    tbl[l] = real_parse_date(l)
-                except Exception:  # noqa
-                    l = None
-            resps.append((e, l))
-        style = REQ_STYLES[i % len(REQ_STYLES)]
-        obs = impl_if_range(value, resps, style)
-        lit = "(%s, %s, %s)" % (clist(cpair(cstr(k_), cZopt(v_)) for k_, v_ in tbl.items()), costr(value),
-                                clist(cpair(costr(e), costr(l)) for e, l in resps))
-        cases.append((lit, obs, {"kind": "if-range", "value": value, "style": style, "resps": [list(x) for x in resps], "oracle": oc}))
-    _corr(ctx, "if-range", "(fun c : list (str * option Z) * option str * list (option str * option str) => obs_if_range (fst (fst c)) (snd (fst c)) (snd c))", cases,
-          "(list (str * option Z) * option str * list (option str * option str))")
+            fn()
+        except Stop as e:
+            ctx.note("correspondence %s skipped: %s" % (name, e))
+        except Exception:  # noqa
+            import traceback
+            ctx.broken.append("stage %s could not be run: %s" % (name, traceback.format_exc()[-600:]))
 
-    # 6. the same model functions against LONG-LIVED objects: one Request whose headers are edited between steps (getters in
-    #    alternating order), one Response whose etag is assigned over and over.  The model is a pure function of the current
-    #    header text, so each step is an ordinary case of `obs_getters` / `obs_set_etag`.
-    r6 = ctx.sub_rng("corr-history")
-    hl = ctx.scale(30, 60)
-    cases = []
-    for h in range(ctx.scale(10, 80)):
-        seq = []
-        pool = [v for v, _ in corr_values(ctx, r6, 6)[-6:]] + [None, "", "*", '"a", W/"b"', 'W/"a", "b"']
-        for _ in range(hl):
-            v = r6.choice(pool)
-            seq.append((v, [None, "a", "b", "*"] + ([v[1:-1]] if v else [])))
-        obs = run_getters_seq(seq, h)
-        for i, (v, probes) in enumerate(seq):
-            cases.append((cpair(costr(v), clist(costr(p) for p in probes)), obs[i],
-                          {"kind": "getters-history", "history": h, "step": i, "value": v,
-                           "oracle": [{"kind": "getters-seq", "seq": [list(x) for x in seq[:i + 1]], "flip": h}]}))
-    _corr(ctx, "getters-history", "(fun c : option str * list (option str) => obs_getters (fst c) (snd c))", cases,
-          "(option str * list (option str))")
-    cases = []
-    for h in range(ctx.scale(10, 80)):
-        args = []
-        for _ in range(hl):
-            v = r_tag(r6, TAG_ALPHA + ['"', "W", "/", "\n", "\\", "b"], 3)
-            args.append(("str", v) if r6.random() < 0.4 else ("pair", v, r6.random() < 0.5))
-        obs = run_set_etag_seq(args)
-        for i, a in enumerate(args):
-            cases.append((carg(a), obs[i], {"kind": "set-etag-history", "history": h, "step": i, "arg": list(a),
-                                            "oracle": [{"kind": "set-etag-seq", "args": [list(x) for x in args[:i + 1]]}]}))
-    _corr(ctx, "set-etag-history", "obs_set_etag", cases, "etag_arg")
+    r3 = ctx.sub_rng("corr-etag")
+    def corr_scan():
+        # 1. the scanner: findall + match of both live patterns
+        vals = corr_values(ctx, rng, n)
+        cases = []
+        for which in ("lst", "rsp"):
+            for v, oc in vals:
+                cases.append((cpair(cbool(which == "lst"), cstr(v)), impl_scan(which, v),
+                              {"kind": "scan", "pattern": which, "value": v, "oracle": oc}))
+        _corr(ctx, "scan", "(fun c : bool * str => let g := if fst c then lst_cfg else rsp_cfg in "
+                           "VList [obs_findall g (snd c); obs_match g (snd c)])", cases, "(bool * str)")
+
+    stage('scan', corr_scan)
+
+    def corr_getters():
+        # 2. request.if_match / request.if_none_match + membership
+        vals = corr_values(ctx, rng, n)
+        cases = []
+        for v, oc in [(None, [])] + vals:
+            probes = [None, "", "a", "b", "*"] + ([t for _, _, t in oc[0]["items"]] if oc else [])
+            if v:
+                probes += [v, v[1:-1], v[:-1]]
+            style = REQ_STYLES[len(cases) % len(REQ_STYLES)]
+            cases.append((cpair(costr(v), clist(costr(p) for p in probes)), impl_getters(v, probes, style),
+                          {"kind": "getters", "value": v, "probes": probes, "style": style,
+                           "oracle": [dict(o, style=style) for o in oc]}))
+        _corr(ctx, "getters", "(fun c : option str * list (option str) => obs_getters (fst c) (snd c))", cases, "(option str * list (option str))")
+
+    stage('getters', corr_getters)
+
+    def corr_set_etag():
+        # 3. Response.etag = v / (v, strong)
+        args = [("str", v) for v in ["", "a", '"a"', 'W/"a"', 'a"b', "a\\", "a\nb", "a\rb", ' "a"', 'W/"a', "*", '"a', ',"a"',
+                                     '"a" x', '"a\\"', "\xe9", "Ā"]]
+        args += [("pair", v, st) for v in ["", "a", '"a"', 'W/"a"', 'a"b', "a\\", "a\nb", '\\"', "\\\\"] for st in (True, False)]
+        for _ in range(n):
+            v = r_tag(r3, TAG_ALPHA + ['"', "W", "/", "\n", "\r", "\\", "\t", "b"], 5) if r3.random() < 0.7 else r_header_value(r3)
+            args.append(("str", v) if r3.random() < 0.5 else ("pair", v, r3.random() < 0.5))
+        cases = []
+        for a in args:
+            oc = []
+            if '"' not in a[1] and "\n" not in a[1] and "\r" not in a[1]:
+                oc = [{"kind": "etag", "v": a[1], "strong": None if a[0] == "str" else a[2], "how": a[0]}]
+            cfg = RESP_CFGS[len(cases) % len(RESP_CFGS)]
+            cases.append((carg(a), impl_set_etag(a, cfg), {"kind": "set-etag", "arg": list(a), "cfg": cfg,
+                                                            "oracle": [dict(o, cfg=cfg) for o in oc]}))
+        _corr(ctx, "set-etag", "obs_set_etag", cases, "etag_arg")
+
+    stage('set-etag', corr_set_etag)
+
+    def corr_raw_etag():
+        # 4. raw ETag headers (not necessarily written by the setter)
+        hs = [None, ""] + [v for v, _ in corr_values(ctx, r3, n)]
+        cases = [(costr(h), impl_raw_etag(h), {"kind": "raw-etag", "header": h}) for h in hs]
+        _corr(ctx, "raw-etag", "obs_raw_etag", cases, "(option str)")
+
+    stage('raw-etag', corr_raw_etag)
+
+    def corr_if_range():
+        # 5. request.if_range and `resp in request.if_range`
+        r5 = ctx.sub_rng("corr-if-range")
+        cases = []
+        for i in range(n):
+            k = r5.random()
+            oc = []
+            if k < 0.22:
+                value = r_datey(r5)
+            elif k < 0.3:
+                dd = r5.choice([0, 784111777, 1005268127, 2 ** 31, r5.randrange(0, 4 * 10 ** 9)])
+                value = r5.choice([near_date(dd, r5.choice(NEAR_DATES)), near_date(dd, r5.choice(NEAR_DATES)),
+                                   fmt_asctime(dd), fmt_asctime(dd), '"' + fmt_asctime(dd) + '"', 'W/"' + fmt_date(dd) + '"',
+                                   '"' + fmt_date(dd) + '"', fmt_asctime(dd).replace("  ", " 0"), fmt_asctime(dd) + " ",
+                                   fmt_asctime(dd)[4:], "x" + fmt_asctime(dd)])
+                if value == fmt_asctime(dd):
+                    oc = [{"kind": "if-range-date", "d": dd, "lms": [None, max(0, dd - 1), dd, dd + 1], "how": "header",
+                           "form": "asctime"}]
+            elif k < 0.6:
+                t, w = r_tag(r5), r5.random() < 0.3
+                value = render_tag(w, t)
+            elif k < 0.65:
+                value = r5.choice([None, "", "*", " GMT", "GMT", '"a" GMT', '"a GMT"', "a GMT"])
+            else:
+                value = r_header_value(r5)
+            try:
+                d = real_parse_date(value) if value and value.endswith(" GMT") else None
+            except Exception:  # noqa -- the getter raises too: checked by the malformed oracle, not a correspondence case
+                continue
+            resps = []
+            tbl = {}
+            if value and value.endswith(" GMT"):
+                tbl[value] = d
+            elif value and not value.startswith(('"', 'W/"')):
+                try:
+                    d = tbl[value + " GMT"] = real_parse_date(value + " GMT")     # the asctime branch of IfRange.parse
+                except Exception:  # noqa
+                    continue
+            for _ in range(4):
+                e = r5.choice([None, "", render_tag(False, "a"), render_tag(True, "a"), value, "a", r_header_value(r5)])
+                if r5.random() < 0.5 and value and not value.endswith(" GMT") and '"' in value:
+                    e = value if r5.random() < 0.6 else value.replace("W/", "")
+                base = d if d is not None and 0 < d < 10 ** 11 else 10 ** 9
+                l = r5.choice([None, None, "", "garbage", fmt_date(max(0, base - 1)), fmt_date(base), fmt_date(base + 1),
+                               fmt_date(r5.randrange(0, 4 * 10 ** 9))])
+                if l:
+                    try:
+                        tbl[l] = real_parse_date(l)
+                    except Exception:  # noqa
+                        l = None
+                resps.append((e, l))
+            style = REQ_STYLES[i % len(REQ_STYLES)]
+            obs = impl_if_range(value, resps, style)
+            lit = "(%s, %s, %s)" % (clist(cpair(cstr(k_), cZopt(v_)) for k_, v_ in tbl.items()), costr(value),
+                                    clist(cpair(costr(e), costr(l)) for e, l in resps))
+            cases.append((lit, obs, {"kind": "if-range", "value": value, "style": style, "resps": [list(x) for x in resps], "oracle": oc}))
+        _corr(ctx, "if-range", "(fun c : list (str * option Z) * option str * list (option str * option str) => obs_if_range (fst (fst c)) (snd (fst c)) (snd c))", cases,
+              "(list (str * option Z) * option str * list (option str * option str))")
+
+    stage('if-range', corr_if_range)
+
+    def corr_histories():
+        # 6. the same model functions against LONG-LIVED objects: one Request whose headers are edited between steps (getters in
+        #    alternating order), one Response whose etag is assigned over and over.  The model is a pure function of the current
+        #    header text, so each step is an ordinary case of `obs_getters` / `obs_set_etag`.
+        r6 = ctx.sub_rng("corr-history")
+        hl = ctx.scale(30, 60)
+        cases = []
+        for h in range(ctx.scale(10, 80)):
+            seq = []
+            pool = [v for v, _ in corr_values(ctx, r6, 6)[-6:]] + [None, "", "*", '"a", W/"b"', 'W/"a", "b"']
+            for _ in range(hl):
+                v = r6.choice(pool)
+                seq.append((v, [None, "a", "b", "*"] + ([v[1:-1]] if v else [])))
+            obs = run_getters_seq(seq, h)
+            for i, (v, probes) in enumerate(seq):
+                cases.append((cpair(costr(v), clist(costr(p) for p in probes)), obs[i],
+                              {"kind": "getters-history", "history": h, "step": i, "value": v,
+                               "oracle": [{"kind": "getters-seq", "seq": [list(x) for x in seq[:i + 1]], "flip": h}]}))
+        _corr(ctx, "getters-history", "(fun c : option str * list (option str) => obs_getters (fst c) (snd c))", cases,
+              "(option str * list (option str))")
+        cases = []
+        for h in range(ctx.scale(10, 80)):
+            args = []
+            for _ in range(hl):
+                v = r_tag(r6, TAG_ALPHA + ['"', "W", "/", "\n", "\\", "b"], 3)
+                args.append(("str", v) if r6.random() < 0.4 else ("pair", v, r6.random() < 0.5))
+            obs = run_set_etag_seq(args)
+            for i, a in enumerate(args):
+                cases.append((carg(a), obs[i], {"kind": "set-etag-history", "history": h, "step": i, "arg": list(a),
+                                                "oracle": [{"kind": "set-etag-seq", "args": [list(x) for x in args[:i + 1]]}]}))
+        _corr(ctx, "set-etag-history", "obs_set_etag", cases, "etag_arg")
+
+    stage('histories', corr_histories)
 
     # ---------------------------------------------------------------- oracle sweeps (public API, independent reference)
     def sweep(name, gen_cases, nontrivial=lambda c: True):
         cnt = nt = 0
         seen = set()
+        try:
+            gen_cases = list(gen_cases)
+        except Exception:  # noqa
+            import traceback
+            ctx.broken.append("oracle %s: generator failed: %s" % (name, traceback.format_exc()[-400:]))
+            gen_cases = []
         for case in gen_cases:
             cnt += 1
             sig = json.dumps(case, sort_keys=True)
@@ -1533,7 +1574,10 @@ def run(ctx):
                 nt += 1 if nontrivial(case) else 0
                 if cnt == 3 and len(ctx.samples) < 12:
                     ctx.samples.append({"oracle": name, "case": case})
-            r = oracle_case(case)
+            try:
+                r = oracle_case(case)
+            except Exception as e:  # noqa -- the oracles catch what the implementation raises; this is the harness itself
+                r = ("oracle-raises:%s:%s" % (name, type(e).__name__), "the %s oracle raised %s: %s" % (name, type(e).__name__, e))
             if r:
                 ctx.fail(r[0], r[1], case, True, name)
         ctx.oracle_count(name, cnt, nt)
